@@ -5,6 +5,11 @@ VERIF = os.path.dirname(os.path.dirname(os.path.abspath(__file__)))
 
 # id -> (category, technique, text, note, design_ref, engine)
 CHECKS = {
+ "C01": ("model_checking",
+         "TLC exhaustive check of code-shaped CarIndex.tla; TLC-simulated archives (Gen_Ledger.tla) built as real CARs and indexed by the real `index all`; TLC trace judge (Trace_CarIndex.tla) over every lookup",
+         "The build loop and serving read are model-checked for every layout of <= 3 (quick) / 4 (thorough) sections over 7 kinds x 3 varint-width classes x 2 header sizes; TLC-generated archives (any shape of blocks / entries / transactions / rewards / frame chains, epochs 0..700) plus directed CARs (section bodies exactly at 127..129 and 16383..16512, 16 800 first signatures concentrated in two adjacent prefixes; thorough: 9 999 / 10 001 / 20 001 items) are written with the reference encoder, indexed by the real command in a child process and queried through the real Epoch with the CAR served from the local file and over loopback HTTP; TLC judges every fetch / slot / signature answer against the builder's ground truth.",
+         "Only well-formed CARs; an index run that reports an error is counted as inconclusive for that CAR, not as a violation; archives are sampled by TLC -simulate.",
+         "DESIGN.md section 7, C01", "carindex"),
  "C15": ("model_checking",
          "TLC exhaustive check of PlusCal Accum.tla (every CAR layout x reader/flusher interleaving); TLC-simulated layouts+schedules forced on the real ObjectAccumulator through a gated io.Reader and gated callback; TLC trace judge (Trace_Accum.tla)",
          "Every layout of <= 4 (quick) / 6 (thorough) sections over {flush kind, kept, ignored} x body lengths at a varint boundary, with every interleaving of reader and flusher and queue capacities 1-2, is explored exhaustively (prefix/complete/no-aliasing/termination); TLC-generated layouts and schedules are forced on the real accumulator, plus free-running real-scale runs (1 500 groups, > 5 000 children, slow / random consumers, GOMAXPROCS 1/2/16); delivered groups with offsets are judged by TLC against the true offsets measured by the CAR writer.",
@@ -32,6 +37,8 @@ CHECKS = {
          "DESIGN.md section 7, C06", "gsfa"),
 }
 ENGINES = [
+ {"name": "carindex", "path": "spec/CarIndex.tla", "serves_properties": ["C01"],
+  "kind_free_text": "TLA+ Ledger/Gen_Ledger (archive vocabulary + generator), CarIndexAbs/CarIndex, Trace_CarIndex; Go harness/main/{helpers,arch,c01}_test.go + zzverif/fixture"},
  {"name": "accum", "path": "spec/Accum.tla", "serves_properties": ["C15"],
   "kind_free_text": "PlusCal Accum + AccumAbs + Gen_Accum + Trace_Accum; Go replayer harness/pkg/accum (gated io.Reader / callback)"},
  {"name": "multireader", "path": "spec/MultiReaderAt.tla", "serves_properties": ["C16"],
